@@ -66,7 +66,12 @@ def round2():
 def main():
     parts = [open(p).read() for p in sorted(glob.glob(os.path.join(ROOT, 'notes', 'design', '*.md')))]
     s = ''.join(parts)
+    ents = [json.loads(l) for l in open(os.path.join(ROOT, 'known_findings.jsonl')) if l.strip() and not l.startswith('#')]
+    nfixed = sum(1 for e in ents if e['status'] == 'fixed')
+    nopen = sum(1 for e in ents if e['status'] == 'open')
+    nh = sum(1 for l in open(os.path.join(ROOT, 'HARNESSES.md')) if l.startswith('### '))
     s = s.replace('@@TABLE@@', cost_table()).replace('@@FINDINGS@@', findings_table()).replace('@@ROUND2@@', round2())
+    s = s.replace('@@NFIXED@@', str(nfixed)).replace('@@NOPEN@@', str(nopen)).replace('@@NHARNESS@@', str(nh))
     open(os.path.join(ROOT, 'DESIGN.md'), 'w').write(s)
     print('DESIGN.md: %d lines' % s.count('\n'))
 
